@@ -82,7 +82,7 @@ ENC_MUT = {
     "SSI": [M("immediate-sign-flipped", "instr |= doarg(a, JANET_OAT_INTEGER, 3, 1, type == JINT_SSI, argt[3]);", "instr |= doarg(a, JANET_OAT_INTEGER, 3, 1, type != JINT_SSI, argt[3]);", "outside the range|gives back")],
     "SSU": [M("immediate-sign-flipped", "instr |= doarg(a, JANET_OAT_INTEGER, 3, 1, type == JINT_SSI, argt[3]);", "instr |= doarg(a, JANET_OAT_INTEGER, 3, 1, type != JINT_SSI, argt[3]);", "outside the range|gives back")],
     "SES": [M("env-shift-8", "            instr |= env << 16;", "            instr |= env << 8;", "position"),
-            M("env-two-bytes", "env = doarg(a, JANET_OAT_ENVIRONMENT, 0, 1, 0, argt[2]);", "env = doarg(a, JANET_OAT_ENVIRONMENT, 0, 2, 0, argt[2]);", "outside the range")],
+            M("envslot-signed", "            instr |= doarg(b, JANET_OAT_SLOT, 3, 1, 0, argt[3]);", "            instr |= doarg(b, JANET_OAT_SLOT, 3, 1, 1, argt[3]);", "outside the range|gives back")],
     "SC": [M("constant-three-bytes", "instr |= doarg(a, JANET_OAT_CONSTANT, 2, 2, 0, argt[2]);", "instr |= doarg(a, JANET_OAT_CONSTANT, 2, 3, 0, argt[2]);", "outside the range")],
 }
 M_DOARG_MAX = M("range-max-off-by-one-bit", "    int32_t max = (1 << ((nbytes << 3) - hassign)) - 1;", "    int32_t max = (1 << ((nbytes << 3) - hassign + 1)) - 1;", "outside the range|shift")
@@ -103,6 +103,13 @@ for s in ("SSU", "SES"):
     DEC_MUT[s] = DEC_MUT["SSS"]
 M_BRK = M("breakpoint-flag-ignored", "        if (instr & 0x80) {\n            janet_tuple_flag(ret) |= JANET_TUPLE_FLAG_BRACKETCTOR;", "        if (0) {\n            janet_tuple_flag(ret) |= JANET_TUPLE_FLAG_BRACKETCTOR;", "bracketed")
 
+RT_EXP = "accepts every instruction|gives back the word"
+RT_MUT = {
+    "SS": M("second-slot-one-byte", "instr |= doarg(a, JANET_OAT_SLOT, 2, 2, 0, argt[2]);", "instr |= doarg(a, JANET_OAT_SLOT, 2, 1, 0, argt[2]);", RT_EXP),
+    "SL": M("offset-unsigned", "instr |= doarg(a, JANET_OAT_LABEL, 2, 2, 1, argt[2]);", "instr |= doarg(a, JANET_OAT_LABEL, 2, 2, 0, argt[2]);", RT_EXP),
+    "ST": M("typeset-one-byte", "instr |= doarg(a, JANET_OAT_TYPE, 2, 2, 0, argt[2]);", "instr |= doarg(a, JANET_OAT_TYPE, 2, 1, 0, argt[2]);", RT_EXP),
+    "SC": M("constant-one-byte", "instr |= doarg(a, JANET_OAT_CONSTANT, 2, 2, 0, argt[2]);", "instr |= doarg(a, JANET_OAT_CONSTANT, 2, 1, 0, argt[2]);", RT_EXP),
+}
 RC_CODEC = ["janet_asm_longjmp:ac_longjmp_stub", "janet_tuple_begin:ac_tuple_begin_stub", "janet_tuple_end:ac_tuple_end_stub",
             "janet_csymbol:ac_csymbol_stub"]
 
@@ -118,6 +125,8 @@ def shape_defines(name):
 
 
 def codec_unit(uid, entry, shape, clause, functions, mutants, cls="full-domain", extra_def=None, bound=None, unwind=80, tier="quick", skip=True, timeout=300):
+    if shape == "SSS":
+        tier = "thorough"       # about 30 opcodes of this shape, one body each: 50-150 s
     u = {"id": uid, "props": ["C09", "C10"] if entry == "h_enc" else ["C09"], "tier": tier, "class": cls, "clause": clause,
          "src": ["bytecode.c", "asm.c"], "link": ["wrap.c"], "link_keep": {"wrap.c": WRAP},
          "harness": ["asm_codec.c"], "entry": entry, "mode": "plain", "nanbox": False, "functions": functions,
@@ -151,6 +160,8 @@ for name, (ops, slots, text) in SHAPES.items():
     RT_CL = ("shape JINT_%s - %s: read_instruction accepts the tuple janet_asm_decode_instruction prints for ANY word of the shape (any nesting depth of "
              "the function being assembled) and returns the same word (breakpoint flag cleared)" % (name, text))
     rt_mut = [dict(ENC_MUT[name][0], expect="accepts every instruction|gives back the word")] if name != "0" else [DEC_MUT["0"][0]]
+    if name in RT_MUT:
+        rt_mut = [RT_MUT[name]]
     if name == "S":
         add(codec_unit("asm.codec.rt.s", "h_rt", name, RT_CL, ["read_instruction", "doarg", "doarg_1", "janet_asm_decode_instruction"], rt_mut),
             failing="FINDING asm-S-slot-16-bit: the single slot operand of JINT_S instructions is a 24-bit field (vm.c D = *pc >> 8, janet.h 'Slot(3)', "
@@ -164,6 +175,8 @@ for name, (ops, slots, text) in SHAPES.items():
             failing="FINDING asm-upvalue-needs-parents: read_instruction walks (environment index + 1) parents of the assembler for ldu/setu and raises "
                     "'invalid environment index' when there are fewer - so (asm (disasm f)) fails for every closure f that uses an upvalue: "
                     "(def f ((fn [] (var x 1) (fn [] (++ x))))) (asm (disasm f)) -> error 'invalid environment index, instruction 0'. "
+                    "Such an f captures outer variables, which C09's statement excludes; for definitions nested inside the function being assembled the restricted unit "
+                    "asm.codec.rt.ses.nested applies. The environment index is treated as a nesting depth, which it is not (it indexes def->environments). "
                     "Failing obligation ac_longjmp_stub.assertion.1 'the assembler accepts every instruction the disassembler prints'.")
         add(codec_unit("asm.codec.rt.ses.nested", "h_rt", name, RT_CL + " - restricted to functions nested deeper than the environment index",
                        ["read_instruction", "doarg", "doarg_1", "janet_asm_decode_instruction"], rt_mut, cls="bounded", unwind=uw,
@@ -289,6 +302,8 @@ M_HANDLER_LEAK = M("tables-not-released-before-propagating", "        if (NULL !
 
 
 def struct_unit(uid, secs, what, mutants, extra_def=None, bound_extra="", failing=None, tier="quick", timeout=600, unwind=17):
+    if uid not in ("asm.asm1.header", "asm.asm1.header.below-max", "asm.asm1.bytecode"):
+        tier = "thorough"       # 60-170 s
     u = {"id": uid, "props": ["C10"], "tier": tier, "class": "bounded",
          "bound": "lists of at most 2 elements, element tuples of at most 5 values (values arbitrary); one nesting level (the nested call is its contract)" + bound_extra,
          "clause": ASM1_COMMON % what,
@@ -350,7 +365,7 @@ struct_unit("asm.asm1.symbolmap.quads", ["SYMBOLMAP"], ":symbolmap is",
             extra_def=["-DAS_TUPLE_MIN=4"], bound_extra="; entry tuples have at least 4 elements (shorter ones: disabled unit asm.asm1.symbolmap)")
 struct_unit("asm.asm1.environments", ["ENVIRONMENTS"], ":environments is",
             [M("environments-block-one-short", "            def->environments = janet_realloc(def->environments, def->environments_length * sizeof(int32_t));", "            def->environments = janet_realloc(def->environments, (def->environments_length - 1) * sizeof(int32_t));", "pointer|bounds|block of environments_length"),
-             M("environments-length-one-more", "        def->environments_length = count;\n        if (def->environments_length) {", "        def->environments_length = count + 1;\n        if (def->environments_length) {", "block of environments_length|pointer|bounds")])
+             M("environments-length-one-more", "        def->environments_length = count;\n        if (def->environments_length) {", "        def->environments_length = count + 1;\n        if (def->environments_length) {", "lengths of the description|block of environments_length|pointer|bounds")])
 struct_unit("asm.asm1.depth-guard", ["CLOSURES"], ":closures / :defs are", [M_NO_VERIFY], extra_def=["-DAS_DEPTH_GUARD"],
             bound_extra="; the assembler is nested arbitrarily deep (every parent has a parent)", failing=FIND_DEPTH)
 
@@ -419,18 +434,25 @@ DIS_MUT = [
     M("asm-sourcemap-column-from-line", "            mapping.column = janet_unwrap_integer(tup[1]);", "            mapping.column = janet_unwrap_integer(tup[0]);", "source map entries"),
     M("asm-defs-key-only-closures", "    if (janet_checktype(x, JANET_NIL)) {\n        x = janet_get1(s, janet_ckeywordv(\"defs\"));\n    }", "", "nested definitions"),
 ]
-add({"id": "asm.roundtrip.fields", "props": ["C09"], "tier": "thorough", "class": "bounded",
-     "bound": "at most 2 instructions, constants, environments, nested definitions, symbol map entries (values arbitrary); nested definitions by induction",
-     "clause": "janet_disasm followed by janet_asm1: for any such definition the assembler accepts the disassembly and returns a definition with the same arity, min-arity, max-arity, "
-               "vararg/structarg flags, instruction words, constants (bit-identical), nested definitions (same order), environments, source map, symbol map, name and source; "
-               "all reads and writes of both functions in bounds. slotcount is NOT compared: the assembler ignores :slotcount and recomputes it (only 'covers the parameters' is asserted)",
-     "src": ["bytecode.c", "asm.c"], "link": ["wrap.c", "util.c", "compile.c"],
-     "link_keep": {"util.c": ["janet_checkint", "janet_indexed_view"], "compile.c": ["janet_def_addflags"]},
-     "harness": ["asm_disasm.c"], "entry": "h_roundtrip", "mode": "plain", "nanbox": False,
-     "functions": ["janet_disasm", "janet_asm1", "janet_disasm_bytecode", "janet_disasm_constants", "janet_disasm_sourcemap", "janet_disasm_symbolslots", "janet_disasm_environments", "janet_disasm_defs"],
-     "replace_calls": RC_DIS, "replace_calls2": ["janet_disasm__entry:janet_disasm", "janet_asm1__entry:janet_asm1"],
-     "checks": CHECKS, "unwind": 18, "unwinding_assertions": True, "timeout": 900, "object_bits": 10,
-     "assumes": A_DIS, "mutants": DIS_MUT})
+def rt_unit(sfx, defines, bound, mutants):
+    add({"id": "asm.roundtrip.fields." + sfx, "props": ["C09"], "tier": "thorough", "class": "bounded",
+         "bound": bound + "; values arbitrary; nested definitions by induction",
+         "clause": "janet_disasm followed by janet_asm1: for any such definition the assembler accepts the disassembly and returns a definition with the same arity, min-arity, max-arity, "
+                   "vararg/structarg flags, instruction words, constants (bit-identical), nested definitions (same order), environments, source map, symbol map, name and source; "
+                   "all reads and writes of both functions in bounds. slotcount is NOT compared: the assembler ignores :slotcount and recomputes it (only 'covers the parameters' is asserted)",
+         "src": ["bytecode.c", "asm.c"], "link": ["wrap.c", "util.c", "compile.c"],
+         "link_keep": {"util.c": ["janet_checkint", "janet_indexed_view"], "compile.c": ["janet_def_addflags"]},
+         "harness": ["asm_disasm.c"], "entry": "h_roundtrip", "mode": "plain", "nanbox": False, "defines": defines,
+         "functions": ["janet_disasm", "janet_asm1", "janet_disasm_bytecode", "janet_disasm_constants", "janet_disasm_sourcemap", "janet_disasm_symbolslots", "janet_disasm_environments", "janet_disasm_defs"],
+         "replace_calls": RC_DIS, "replace_calls2": ["janet_disasm__entry:janet_disasm", "janet_asm1__entry:janet_asm1"],
+         "checks": CHECKS, "unwind": 18, "unwinding_assertions": True, "timeout": 900, "object_bits": 10,
+         "assumes": A_DIS, "mutants": mutants})
+
+
+rt_unit("len2", ["-DDD_MAX=2", "-DDD_FIX=2"], "exactly 2 instructions, constants, environments, nested definitions, symbol map entries (source map / symbol map / name / source present or absent)", DIS_MUT)
+rt_unit("len1", ["-DDD_MAX=2", "-DDD_FIX=1"], "exactly 1 instruction, constant, environment, nested definition, symbol map entry", [DIS_MUT[0], DIS_MUT[5], DIS_MUT[7]])
+rt_unit("len0", ["-DDD_MAX=2", "-DDD_FIX=0"], "1 instruction, no constants, environments, nested definitions; symbol map absent or empty", [DIS_MUT[2], DIS_MUT[6]])
+rt_unit("mixed", ["-DDD_MAX=1"], "each list independently empty or of length 1", [DIS_MUT[3], DIS_MUT[4], DIS_MUT[8]])
 
 if __name__ == "__main__":
     out = os.path.join(VERIF, "units", "C09_asm.json")
